@@ -19,7 +19,7 @@ def run_one(name, text, keep=True):
         res['ok'] = False
         res['diffs'].append('harness run failed (rc %s): %s' % (rc, out[-300:]))
         return res
-    if os.path.exists(core.DRIVER):
+    if os.path.exists(core.DRIVER) and 'noreplay' not in name:
         rc2, dout = core.run([core.DRIVER, 'proto', tp], timeout=120)
         for l in dout.split('\n'):
             if l.startswith('DIFF'):
